@@ -12,12 +12,20 @@ EXTENDS Layouts
 
 \* what rank rc must hold (first LocSize entries of its array) in layout `ord`, for field version `ver`
 VerStride == 1000003
-Holds(sh, ord, P, rc, ver) == [k \in DOMAIN Block(sh, ord, P, rc) |-> Block(sh, ord, P, rc)[k] + ver * VerStride]
+\* (one pass: TLC re-evaluates LET definitions at every use, so the block is built exactly once)
+Holds(sh, ord, P, rc, ver) ==
+    LET ls == LocShape(sh, ord, P, rc) st == LocStart(sh, ord, P, rc) inv == InvOrd(ord)
+        strd == [i \in 1..Len(ls) |-> ProdFrom(ls, i + 1)]
+        gstr == [d \in 1..Len(sh) |-> ProdFrom(sh, d + 1)]
+        off  == ver * VerStride
+    IN  [k \in 1..Prod(ls) |->
+            LET RECURSIVE Acc(_)
+                Acc(d) == IF d > Len(sh) THEN off
+                          ELSE (st[inv[d]] + (((k - 1) \div strd[inv[d]]) % ls[inv[d]])) * gstr[d] + Acc(d + 1)
+            IN Acc(1)]
 
 \* a recorded block (sequence of decoded tokens; -1 = not a token) is the right one
-BlockIs(blk, sh, ord, P, rc, ver) ==
-    LET want == Holds(sh, ord, P, rc, ver)
-    IN  DOMAIN blk = DOMAIN want /\ \A k \in DOMAIN want : blk[k] = want[k]
+BlockIs(blk, sh, ord, P, rc, ver) == blk = Holds(sh, ord, P, rc, ver)
 
 \* the blocks of all ranks together hold every global index exactly once (a consequence, checked in LayoutAbsMC)
 Covers(sh, ord, P) ==
